@@ -171,6 +171,33 @@ def gen_num_schema(rng):
     return s
 
 
+SIGNED = [-1, -2, -3, -4, -5, -6, -7, -8, -9, -10, -11, -13, -20, -21, -100, 1, 2, 3, 7, 9, 20]
+STEPS = [2, 3, 4, 5, 7, 13, 25, 50]
+
+
+def gen_signed_multiple_schema(rng, safe=False):
+    """Negative and mixed-sign bounds together with multipleOf: bounds that are / are not multiples of the step, steps larger than
+    the bounds, one- and two-sided ranges; mostly inside every region (a multiple exists in range, maximum <> 0, numeric exclusives)."""
+    m = rng.choice(STEPS)
+    s = {"type": rng.choice(["integer", "integer", "number"])}
+    shape = rng.choice(["max", "max", "exmax", "min", "both", "both", "both", "exboth"])
+    hi = rng.choice(SIGNED)
+    if rng.random() < 0.3:
+        hi = m * rng.choice([-4, -3, -2, -1, 1, 2])  # an exact multiple
+    width = rng.choice([m, m + 1, 2 * m, 3 * m + 1, 40 + m] if safe else [0, 1, m - 1, m, m + 1, 2 * m, 3 * m + 1, 40])
+    lo = hi - width  # safe: width >= step, so the range holds a multiple (outside F3); hi is never 0 (outside F1)
+    items = {
+        "max": [("maximum", hi)],
+        "exmax": [("exclusiveMaximum", hi)],
+        "min": [("minimum", lo)],
+        "both": [("minimum", lo), ("maximum", hi)],
+        "exboth": [("exclusiveMinimum", lo - 1), ("exclusiveMaximum", hi + 1)],
+    }[shape] + [("multipleOf", m)]
+    rng.shuffle(items)
+    s.update(items)
+    return s
+
+
 DESC = {
     "Example value": "DExample",
     "Default value": "DDefault",
@@ -240,7 +267,7 @@ def num_region(flags) -> str | None:
 def stage_numbers(chk, n):
     rng = chk.rng
     corpus = [json.loads(p.read_text()) for p in sorted((core.VERIF / "corpus" / "C03").glob("num_*.json"))]
-    schemas = corpus + [gen_num_schema(rng) for _ in range(n)]
+    schemas = corpus + [gen_num_schema(rng) if i % 4 else gen_signed_multiple_schema(rng) for i in range(n)]
     oks = [draw_ok(s) for s in schemas]
     exprs = [
         f"(positive_number_plan {c_num_schema(s)} {cbool(ok)}, negative_numbers {c_keys(s)} [], "
@@ -260,13 +287,18 @@ def stage_numbers(chk, n):
         bounded = sum(k in s for k in ("minimum", "maximum", "exclusiveMinimum", "exclusiveMaximum"))
         chk.seen({"num": s}, bounded >= 1)
         chk.count(f"numeric:bounds={bounded}" + (":multipleOf" if "multipleOf" in s else ""))
-        if impl != mod:
+        upper = s.get("maximum", s.get("exclusiveMaximum"))
+        if "multipleOf" in s and isinstance(upper, int) and not isinstance(upper, bool) and upper < 0 and s["multipleOf"] > 0:
+            chk.count("numeric:negative-upper-bound+multipleOf" + (":exact-multiple" if upper % s["multipleOf"] == 0 else ":not-a-multiple"))
+        same = impl == mod
+        if not same:
             chk.disagree("cover_schema_iter (numeric) vs positive_number_plan/negative_numbers", s, impl, mod)
-            continue
-        agree += 1
-        if impl["positive"][0]:
-            chk.sample({"schema": s, "positive_plan": impl["positive"][0]})
-        # oracle: labels vs python-jsonschema
+        else:
+            agree += 1
+            if impl["positive"][0]:
+                chk.sample({"schema": s, "positive_plan": impl["positive"][0]})
+        # oracle: labels vs python-jsonschema (runs whether or not the model agrees).  A failing value is attributed to a listed
+        # finding region only when the model - which follows the known defects - plans exactly that value as well.
         region = num_region(m[3])
         for value, d in impl["positive"][0]:
             if value is None or d in ("DExample", "DDefault"):
@@ -276,7 +308,8 @@ def stage_numbers(chk, n):
                 continue
             checked_values += 1
             if not verdict:
-                chk.fail("value labelled positive does not conform to its schema", {"schema": s, "value": value, "description": d}, region=region)
+                planned = [value, d] in mod["positive"][0]
+                chk.fail("value labelled positive does not conform to its schema", {"schema": s, "value": value, "description": d}, region=region if planned else None)
         for (tag, value), d, key in impl["negative"][0]:
             verdict = is_valid(s, value)
             if verdict is None:
@@ -568,10 +601,14 @@ def gen_operation(rng):
         schema = copy.deepcopy(rng.choice(PARAM_SCHEMAS))
         if loc == "path":
             schema = copy.deepcopy(rng.choice(PARAM_SCHEMAS[:5]))
+        if rng.random() < 0.3:
+            schema = gen_signed_multiple_schema(rng)
         params.append({"name": name, "in": loc, "required": True if loc == "path" else rng.random() < 0.5, "schema": schema})
     bodies = []
     for media in rng.choice([[], [], ["application/json"], ["application/json", "text/plain"], ["text/plain", "application/json"]]):
         bodies.append([media, copy.deepcopy(rng.choice(BODY_SCHEMAS if media == "application/json" else [BODY_SCHEMAS[1], {"type": "string"}, {}]))])
+        if media == "application/json" and rng.random() < 0.25:
+            bodies[-1][1] = rng.choice([gen_signed_multiple_schema(rng), {"type": "object", "properties": {"n": gen_signed_multiple_schema(rng, safe=True)}, "required": ["n"]}])
     method = rng.choice(["post", "put", "get", "patch"])
     others = [m for m in ALL_METHODS if m != method and rng.random() < 0.3]
     return {"params": params, "bodies": bodies, "method": method, "other_methods": others, "modes": rng.choice(["P", "N", "PN", "PN", "PN"])}
@@ -911,15 +948,73 @@ def compare_operation(chk, ctx, val, stats):
         chk.sample({"operation": desc, "n_cases": len(icases), "one_case": [c["sig"], c["mode"], c["components"]]})
 
 
+NUMERIC_KEYS = {"type", "minimum", "maximum", "exclusiveMinimum", "exclusiveMaximum", "multipleOf", "example", "examples", "default"}
+
+
+def is_plain_numeric(schema) -> bool:
+    return (
+        isinstance(schema, dict)
+        and schema.get("type") in ("integer", "number")
+        and set(schema) <= NUMERIC_KEYS
+        and all(isinstance(schema[k], int) for k in ("minimum", "maximum", "exclusiveMinimum", "exclusiveMaximum", "multipleOf", "example", "default") if k in schema)
+        and all(isinstance(x, int) for x in schema.get("examples") or [])
+    )
+
+
+def operation_value_oracle(chk, ctxs, stats):
+    """Every value of every parameter/body generator of every operation, validated against its schema according to its label.
+    A positive value that does not conform is attributed to a listed region only if the model plans that very value too."""
+    numeric = {}
+    for c in ctxs:
+        for rec in c["values"].values():
+            if is_plain_numeric(rec["schema"]):
+                numeric.setdefault(json.dumps(rec["schema"], sort_keys=False), rec["schema"])
+    keys = list(numeric)
+    flags = core.coq_eval(
+        IMPORTS,
+        [
+            f"(fst (positive_number_plan {c_num_schema(numeric[k])} true), (numeric_exclusive {c_num_schema(numeric[k])}, exclusive_dominates {c_num_schema(numeric[k])}, "
+            f"max_not_zero_with_min {c_num_schema(numeric[k])}, multiple_satisfiable {c_num_schema(numeric[k])}))"
+            for k in keys
+        ],
+    )
+    known = {}
+    for k, (plan, fl) in zip(keys, flags):
+        known[k] = ({(popt(v), d) for v, d in plan}, num_region(fl))
+    for c in ctxs:
+        for (loc, name), rec in c["values"].items():
+            schema = rec["schema"]
+            k = json.dumps(schema, sort_keys=False)
+            for value, mode, desc in rec["values"]:
+                if desc in AUTHORED:
+                    continue
+                verdict = is_valid(schema, value)
+                if verdict is None:
+                    continue
+                stats["operation_values_validated"] += 1
+                if (mode == "P") == verdict:
+                    continue
+                region = None
+                if mode == "P" and k in known and (value, DESC.get(desc, desc)) in known[k][0]:
+                    region = known[k][1]
+                chk.fail(
+                    f"value of {loc} {name!r} labelled {'positive' if mode == 'P' else 'negative'} {'does not conform to' if mode == 'P' else 'conforms to'} its schema; "
+                    "it is sent in cases labelled accordingly",
+                    {"operation": c["desc"], "parameter": [loc, name], "schema": schema, "value": repr(value), "description": desc},
+                    region=region,
+                )
+
+
 def stage_cases(chk, n):
     rng = chk.rng
     descs = [json.loads(p.read_text()) for p in sorted((core.VERIF / "corpus" / "C03").glob("op_*.json"))]
     descs += [gen_operation(rng) for _ in range(n)]
-    stats = {"cases": 0, "label_checks": 0, "inside_region_ok": 0}
+    stats = {"cases": 0, "label_checks": 0, "inside_region_ok": 0, "operation_values_validated": 0}
     ctxs = [c for c in (check_operation(chk, d, stats) for d in descs) if c is not None]
     model = core.coq_eval(IMPORTS, [f"coverage_cases {c_shape(c['shape'], c['rank'])}" for c in ctxs], shard=40)
     for ctx, val in zip(ctxs, model):
         compare_operation(chk, ctx, val, stats)
+    operation_value_oracle(chk, ctxs, stats)
     chk.stages["correspondence_cases"] = {"operations": len(descs), "compared": len(ctxs), **stats}
 
 
@@ -928,6 +1023,8 @@ def stage_cases(chk, n):
 # ----------------------------------------------------------------------------------------
 def gen_leaf(rng):
     k = rng.random()
+    if rng.random() < 0.15:
+        return gen_signed_multiple_schema(rng, safe=True)
     if k < 0.35:
         lo = rng.choice([1, 2, 3, -2, 5])
         return {"type": "integer", "minimum": lo, "maximum": lo + rng.choice([0, 1, 2, 5])}
